@@ -1160,6 +1160,7 @@ where
     pub fn perform_self_test<Timer: DelayMs<u8>>(&mut self, timer: &mut Timer) -> Result<(), BMA400Error<InterfaceError, PinError>> {
 
         // Disable interrupts, set accelerometer test config
+        let saved_config = self.config.clone();
         self.config.setup_self_test(&mut self.interface)?;
 
         // Wait 2ms
@@ -1193,7 +1194,7 @@ where
         timer.delay_ms(50);
 
         // Re-enable interrupts and previous config
-        self.config.cleanup_self_test(&mut self.interface)?;
+        self.config.cleanup_self_test(&saved_config, &mut self.interface)?;
 
         // Evaluate results
         if x > 1500 && y > 1200 && z > 250 {
